@@ -679,6 +679,69 @@ def _chan_handlers_ok():
     return "true" if all(x in m for x in need) else "false"
 
 
+# ---- C04 : connection loss ---------------------------------------------------------------------------
+
+
+@fact("loss_reads_raise_eof_with_text", "bool", "false")
+def _loss_reads_raise_eof_with_text():
+    """every transport's exact read raises EOFError WITH a message on short data (Message.from_io formats
+    e.args[0]); from_io turns an empty / short header into EOFError"""
+    ok = True
+    for fn, qual in (("gateway_base.py", "Popen2IO.read"), ("gateway_socket.py", "SocketIO.read")):
+        f = find(fn, qual)
+        raises = [n for n in ast.walk(f) if isinstance(n, ast.Raise)]
+        ok = ok and len(raises) == 1 and isinstance(raises[0].exc, ast.Call) and _src(raises[0].exc.func) == "EOFError" and len(raises[0].exc.args) == 1
+    t = _src(find("gateway_base.py", "Message.from_io"))
+    ok = ok and "except EOFError as e:" in t and "raise EOFError(\"couldn't load message header, \" + e.args[0]) from None" in t
+    return "true" if ok else "false"
+
+
+@fact("loss_epilogue_ok", "bool", "false")
+def _loss_epilogue_ok():
+    """_thread_receiver: EOFError is remembered in self._error; whatever ended the loop, the epilogue runs
+    _finished_receiving, _terminate_execution, close_read, close_write, _receivepool.trigger_shutdown in that order
+    (no statement of the epilogue is inside the try)"""
+    f = find("gateway_base.py", "BaseGateway._thread_receiver")
+    body = [n for n in _Strip().visit(__import__("copy").deepcopy(f)).body if not isinstance(n, ast.FunctionDef)]
+    body = [n for n in body if not (isinstance(n, ast.Assign) and _src(n) == "io = self._io")]
+    if not body or not isinstance(body[0], ast.Try):
+        return "false"
+    tr = body[0]
+    hs = {_src(h.type): _src(h.body) for h in tr.handlers}
+    ok = "EOFError" in hs and "self._error = exc" in hs["EOFError"] and "Exception" in hs and not tr.finalbody and not tr.orelse
+    ok = ok and [_src(n) for n in body[1:]] == ["self._channelfactory._finished_receiving()", "self._terminate_execution()", "self._io.close_read()", "self._io.close_write()", "self._receivepool.trigger_shutdown()"]
+    return "true" if ok else "false"
+
+
+@fact("loss_finished_receiving_ok", "bool", "false")
+def _loss_finished_receiving_ok():
+    """ChannelFactory._finished_receiving: finished = True under _writelock, then every registered channel
+    _local_close(id, sendonly=True), then every registered callback _no_longer_opened(id); new() refuses when finished"""
+    t = [_src(n) for n in _body_nodoc(find("gateway_base.py", "ChannelFactory._finished_receiving"))]
+    ok = t == ["with self._writelock:\n    self.finished = True", "for id in self._list(self._channels):\n    self._local_close(id, sendonly=True)", "for id in self._list(self._callbacks):\n    self._no_longer_opened(id)"]
+    n = find("gateway_base.py", "ChannelFactory.new")
+    w = _body_nodoc(n)[0]
+    first = _src(w.body[0]) if isinstance(w, ast.With) else ""
+    ok = ok and first.startswith("if self.finished:\n    raise OSError(")
+    return "true" if ok else "false"
+
+
+@fact("loss_send_raises_oserror", "bool", "false")
+def _loss_send_raises_oserror():
+    """BaseGateway._send maps OSError/ValueError of the IO to OSError; remote_exec and newchannel go through
+    ChannelFactory.new; hasreceiver is the receive pool's active count; receive/waitclose raise the stored error"""
+    t = _src(find("gateway_base.py", "BaseGateway._send"))
+    ok = "except (OSError, ValueError) as e:" in t and "raise OSError('cannot send (already closed?)') from e" in t
+    ok = ok and "return self._channelfactory.new()" in _src(find("gateway_base.py", "BaseGateway.newchannel"))
+    ok = ok and "channel = self.newchannel()" in _src(find("gateway.py", "Gateway.remote_exec"))
+    ok = ok and "return self._receivepool.active_count() > 0" in _src(find("gateway.py", "Gateway.hasreceiver"))
+    g = _src(find("gateway_base.py", "Channel._getremoteerror"))
+    ok = ok and "return self.gateway._error" in g
+    w = _src(find("gateway_base.py", "Channel.waitclose"))
+    ok = ok and "error = self._getremoteerror()\n    if error:\n        raise error" in w
+    return "true" if ok else "false"
+
+
 # ---- C18 : channel ids -------------------------------------------------------------------------------
 
 
@@ -808,6 +871,10 @@ DIGESTS = [
     ("multi.py", "Group.__getitem__"),
     ("multi.py", "Group.__contains__"),
     ("gateway_base.py", "Channel.setcallback"),
+    ("gateway_base.py", "Channel.waitclose"),
+    ("gateway_base.py", "Channel._getremoteerror"),
+    ("gateway.py", "Gateway.remote_exec"),
+    ("gateway.py", "Gateway.hasreceiver"),
     ("gateway_base.py", "Channel.receive"),
     ("gateway_base.py", "Channel.close"),
     ("gateway_base.py", "Channel.__del__"),
